@@ -1341,6 +1341,9 @@ def external(src, attr):
             return Builtin('ndarray', None)
         if attr == 'inf':
             return Inf(1)
+        if attr in ('isinf', 'isnan'):
+            # reals are finite (machine arithmetic treated as mathematical); only an Inf created on purpose is infinite
+            return Builtin('math.' + attr, lambda it, a, k, attr=attr: isinstance(a[0], Inf) and attr == 'isinf')
     if src == 'scipy' and attr == 'constants':
         return ModuleRef('scipy.constants')
     if (src, attr) in CONSTANTS:
@@ -1359,6 +1362,8 @@ def external(src, attr):
             return SV(PI)
         if attr == 'inf':
             return Inf(1)
+        if attr in ('isinf', 'isnan'):
+            return Builtin('math.' + attr, lambda it, a, k, attr=attr: isinstance(a[0], Inf) and attr == 'isinf')
     if src == 'copy' and attr == 'deepcopy':
         return Builtin('deepcopy', lambda it, a, k: it.engine.deepcopy(it, a[0]))
     if src == 'copy' and attr == 'copy':
